@@ -155,3 +155,46 @@ func VerifC04Statements() {
 		rt.Assert(rt.Implies(!ok, c.rejected()), "iteration over something that is no Text or list of the element type is rejected")
 	}
 }
+
+// VerifC04CallArgs: a call whose argument has another type than the parameter, or whose Referenz
+// parameter receives an expression that is no variable, is rejected; the same for the arguments
+// of a Kombination literal.
+func VerifC04CallArgs() {
+	p := vNewTypes()
+	c := vNewChecker()
+	structLit := rt.Bool("literal")
+	names := []string{"p0", "p1"}
+	args := map[string]ast.Expression{}
+	bad := false
+	decl := &ast.FuncDecl{NameTok: token.Token{Type: token.IDENTIFIER, Literal: "f"}, ReturnType: ddptypes.ZAHL, Mod: c.mod}
+	st := &ddptypes.StructType{Name: "Paar", GramGender: ddptypes.NEUTRUM}
+	for i, n := range names {
+		var pt, at ddptypes.Type = ddptypes.ZAHL, ddptypes.ZAHL
+		if i == 0 {
+			pt, at = p.vType("param", 1), p.vType("arg", 1)
+		}
+		ref := false
+		if !structLit {
+			ref = rt.Bool("reference")
+		}
+		assignable := rt.Bool("assignable")
+		var expr ast.Expression = c.vVar("v"+n, at)
+		if !assignable {
+			// a parenthesised sum is no variable; its type is the type of the operands
+			expr = &ast.CastExpr{TargetType: at, Lhs: c.vVar("w"+n, ddptypes.VARIABLE)}
+		}
+		pos := token.Position{Line: uint(i + 1), Column: 1}
+		_ = pos
+		args[n] = expr
+		decl.Parameters = append(decl.Parameters, ast.ParameterInfo{Name: token.Token{Type: token.IDENTIFIER, Literal: n}, Type: ddptypes.ParameterType{Type: pt, IsReference: ref}})
+		st.Fields = append(st.Fields, ddptypes.StructField{Name: n, Type: pt})
+		bad = rt.Or(bad, rt.Or(!ddptypes.Equal(pt, at), rt.And(ref, !assignable)))
+	}
+	if structLit {
+		sd := &ast.StructDecl{NameTok: token.Token{Type: token.IDENTIFIER, Literal: "Paar"}, Type: st, Mod: c.mod}
+		c.t.VisitStructLiteral(&ast.StructLiteral{Struct: sd, Type: st, Args: args})
+	} else {
+		c.t.VisitFuncCall(&ast.FuncCall{Name: "f", Func: decl, Args: args})
+	}
+	rt.Assert(rt.Implies(bad, c.rejected()), "an argument of a wrong type, or an expression for a Referenz parameter, is rejected")
+}
